@@ -2,7 +2,8 @@
 (* Bounded-exhaustive exploration of Packages: design invariants, and one    *)
 (* stimulus (history) per transition of the state graph.                     *)
 EXTENDS Packages, Json
-CONSTANT MaxDepth
+CONSTANTS MaxDepth,
+          AllowAmb      \* TRUE: histories may pass through states in which two used packages provide the same name
 VARIABLES st, hist, feat
 Op(name, a, b, c) == [op |-> name, a |-> a, b |-> b, c |-> c]
 Ops == {Op("use", q, "", 0) : q \in P} \cup {Op("unuse", q, "", 0) : q \in P} \cup {Op("inpkg", q, "", 0) : q \in P}
@@ -13,10 +14,30 @@ GInit == st = Start /\ hist = <<>> /\ feat = {}
 GNext == /\ Len(hist) < MaxDepth
          /\ \E o \in Ops : /\ Enabled(st, o)
                            /\ st' \in Step(st, o)
-                           /\ ~Ambiguous(st')
+                           /\ (AllowAmb \/ ~Ambiguous(st'))
                            /\ hist' = Append(hist, o)
                            /\ feat' = feat \cup Features(st, o) \cup StateFeatures(st')
 Emit == PrintT(ToJson([ops |-> hist', feat |-> feat']))
+\* directed histories: two used packages provide the same name, then one of them stops providing it (unuse, unexport,
+\* undefine) or changes it - the name must fall back to / stay with the other provider
+Setup(q, k, n, v) == <<Op("inpkg", q, "", 0), Op("def", k, n, v), Op("export", n, "", 0)>>
+In(q, ops) == <<Op("inpkg", q, "", 0)>> \o ops \o <<Op("inpkg", P0, "", 0)>>
+Changes(q1, q2, k, n) ==
+  {<<Op("unuse", q1, "", 0)>>, <<Op("unuse", q2, "", 0)>>, <<Op("unuse", q1, "", 0), Op("use", q1, "", 0)>>,
+   In(q1, <<Op("unexport", n, "", 0)>>), In(q2, <<Op("unexport", n, "", 0)>>),
+   In(q1, <<Op("undef", k, n, 0)>>), In(q2, <<Op("def", k, n, 1)>>),
+   <<Op("unuse", q1, "", 0), Op("unuse", q2, "", 0)>>}
+ConflictHistories ==
+  LET Q == P \ {P0} IN
+  UNION {IF q1 # q2 /\ x # y /\ {x, y} = {q1, q2}
+         THEN {Setup(q1, k, n, 1) \o Setup(q2, k, n, 2) \o <<Op("inpkg", P0, "", 0), Op("use", x, "", 0), Op("use", y, "", 0)>> \o ch :
+                 ch \in Changes(q1, q2, k, n)}
+         ELSE {} : q1 \in Q, q2 \in Q, k \in Kinds, n \in N, x \in Q, y \in Q}
+DInit == st = Start /\ feat = {} /\ hist \in ConflictHistories
+DNext == UNCHANGED <<st, hist, feat>>
+EmitDirected == PrintT(ToJson([ops |-> hist, feat |-> feat]))
+\* simulation mode (long random histories through the same GNext): the state at the end of a walk is printed
+EmitState == Len(hist) < MaxDepth \/ PrintT(ToJson([ops |-> hist, feat |-> feat]))
 View == st
 Inv == TypeOK(st) /\ OwnWins(st) /\ NothingFromNowhere(st)
 =============================================================================
